@@ -69,11 +69,14 @@ def pyth_vectors(rng, n):
 class C03(Base):
     title = "vectors: inner-product space, cross, perp-dot"
     design_ref = "§6 C03"
+    sparsify = ["o.v3.lagrange", "o.v3.cross_cross", "o.v3.cross_orth", "o.v.dot_bilinear"]
     ops = ops_with_prefix("v1.", "v2.", "v3.", "v4.", "dot.v3")
 
-    def native_args(self, tier, seed):
-        # the ten integer scalar types ("where no overflow occurs"): component-wise i128 oracle
-        return ["native", "c03", "3000" if tier == "quick" else "300000", str(seed)]
+    def native_runs(self, tier, seed):
+        # the ten integer scalar types ("where no overflow occurs"): component-wise i128 oracle;
+        # every operand form (by reference, compound assignment) of the vector operators against the by-value form
+        return [["native", "c03", "3000" if tier == "quick" else "300000", str(seed)],
+                ["native", "c17", "0", str(seed), "Vector"]]
 
     def families(self, rng, tier):
         out = []
@@ -221,9 +224,14 @@ _C01_OPS = [f"m{n}.{o}" for n in (2, 3, 4) for o in _c01] + [
 class C01(Base):
     title = "matrix products follow the column-major, column-vector convention; constructors; ring action"
     design_ref = "§6 C01"
+    sparsify = ["o.m2.product", "o.m3.product", "o.m4.product", "o.m2.ring", "o.m3.ring", "o.m4.ring", "o.m4.constructors", "o.m3.constructors", "o.m.embed"]
     ops = _C01_OPS
     oracle_ops = ["o.m2.product", "o.m3.product", "o.m4.product", "o.m2.ring", "o.m3.ring", "o.m4.ring",
                   "o.m4.constructors", "o.m3.constructors", "o.m.embed"]
+
+    def native_runs(self, tier, seed):
+        # every operand form (by reference, compound assignment) of the matrix operators against the by-value form
+        return [["native", "c17", "0", str(seed), "Matrix"]]
 
     def families(self, rng, tier):
         out = []
@@ -274,6 +282,7 @@ _C02_OPS = [f"m{n}.{o}" for n in (2, 3, 4) for o in _c02] + [
 class C02(Base):
     title = "inverse, determinant, transpose and swaps obey linear algebra"
     design_ref = "§6 C02"
+    sparsify = ["o.m2.inverse", "o.m3.inverse", "o.m4.inverse", "o.m2.det_laws", "o.m3.det_laws", "o.m4.det_laws", "o.m2.swaps", "o.m3.swaps", "o.m4.swaps"]
     ops = _C02_OPS
     oracle_ops = ["o.m{}.{}".format(n, o) for n in (2, 3, 4) for o in ("inverse", "det_laws", "swaps")]
 
@@ -334,10 +343,12 @@ class C02(Base):
 class C12(Base):
     title = "points form an affine space; homogeneous coordinates"
     design_ref = "§6 C12"
+    sparsify = ["o.p1.affine", "o.p2.affine", "o.p3.affine", "o.p1.centroid", "o.p2.centroid", "o.p3.centroid"]
     ops = ops_with_prefix("p1.", "p2.", "p3.")
 
-    def native_args(self, tier, seed):
-        return ["native", "c12", "3000" if tier == "quick" else "300000", str(seed)]
+    def native_runs(self, tier, seed):
+        return [["native", "c12", "3000" if tier == "quick" else "300000", str(seed)],
+                ["native", "c17", "0", str(seed), "Point"]]
     oracle_ops = ["o.p1.affine", "o.p2.affine", "o.p3.affine", "o.p1.centroid", "o.p2.centroid",
                   "o.p3.centroid", "o.p3.homogeneous"]
 
@@ -401,8 +412,12 @@ _Q_ALG = ["q.new", "q.from_sv", "q.conjugate", "q.neg", "q.add", "q.sub", "q.mul
 class C04(Base):
     title = "quaternions obey Hamilton's algebra; unit quaternions act as rotations"
     design_ref = "§6 C04"
+    sparsify = ["o.q.algebra"]
     ops = _Q_ALG
     oracle_ops = ["o.q.algebra", "o.q.invert", "o.q.rotate", "o.q.compose"]
+
+    def native_runs(self, tier, seed):
+        return [["native", "c17", "0", str(seed), "Quaternion"]]
 
     def families(self, rng, tier):
         out = []
@@ -488,6 +503,7 @@ def dec2(rng, scale=None):
 class C08(Base):
     title = "transforms compose, invert and convert to matrices consistently"
     design_ref = "§6 C08"
+    sparsify = ["o.m4.transform", "o.m3.transform", "o.m3.transform2"]
     _dec = ["one", "id", "transform_vector", "transform_point", "concat", "mul", "concat_self",
             "inverse_transform", "inverse_transform_vector", "to_matrix"]
     ops = ["{}.{}".format(t, o) for t in ("dq", "db3", "db2") for o in
@@ -536,6 +552,19 @@ class C08(Base):
             out.append(Case("o.m4.transform", singular_mat(rng, 3) + [rng.small() for _ in range(15)] + rng.distinct(3) + rng.distinct(3), family="oracle-singular"))
             out.append(Case("o.m3.transform", rand_mat(rng, 3, "small") + rand_mat(rng, 3, "small") + rng.distinct(3) + rng.distinct(3), family="oracle"))
             out.append(Case("o.m3.transform2", [rng.small() for _ in range(12)] + rng.distinct(2) + rng.distinct(2), family="oracle"))
+            # tiny but non-zero determinant: the inverse exists and undoes the transform
+            tm = [rng.small() for _ in range(12)]
+            col = rng.below(3)
+            for r_ in range(3):
+                tm[col * 3 + r_] *= F(1, 2 ** 70)
+            out.append(Case("o.m4.transform", tm + [rng.small() for _ in range(12)] + rng.distinct(3) + rng.distinct(3), family="oracle-tiny-det"))
+            t3 = tiny_det_mat(rng, 3)
+            out.append(Case("o.m3.transform", t3 + rand_mat(rng, 3, "small") + rng.distinct(3) + rng.distinct(3), family="oracle-tiny-det"))
+            # determinant exactly 1 without being a rotation (shears): the inverse is not the transpose
+            sh = [F(1), F(0), F(0), F(rng.rng(1, 4)), F(1), F(0), F(rng.rng(-3, 3)), F(rng.rng(1, 3)), F(1)]
+            out.append(Case("o.m3.transform", sh + rand_mat(rng, 3, "small") + rng.distinct(3) + rng.distinct(3), family="oracle-unimodular"))
+            dg = [F(2), F(0), F(0), F(0), F(1, 2), F(0), F(0), F(0), F(1)]
+            out.append(Case("o.m3.transform", dg + rand_mat(rng, 3, "small") + rng.distinct(3) + rng.distinct(3), family="oracle-unimodular"))
             out.append(Case("o.m3.transform2", singular_mat(rng, 2) + [rng.small() for _ in range(8)] + rng.distinct(2) + rng.distinct(2), family="oracle-singular"))
         return out
 
@@ -577,7 +606,10 @@ class C10(Base):
         f, a, n, fr = valid_persp(rng)
         PI = F(884279719003555, 140737488355328) / 2
         tiny = F(1, 2 ** 60)
+        TURN = F(884279719003555, 140737488355328)
         for op in ("proj.perspective", "proj.perspective_s"):
+            out += [(op, [f + TURN, a, n, fr]), (op, [f - TURN, a, n, fr]), (op, [f + 3 * TURN, a, n, fr]),
+                    (op, [F(7), a, n, fr]), (op, [F(-11, 2), a, n, fr])]
             out += [(op, [F(0), a, n, fr]), (op, [-f, a, n, fr]), (op, [PI, a, n, fr]), (op, [PI + 1, a, n, fr]),
                     (op, [f, F(0), n, fr]), (op, [f, tiny, n, fr]), (op, [f, a, F(0), fr]), (op, [f, a, -n, fr]),
                     (op, [f, a, n, F(0)]), (op, [f, a, n, -fr]), (op, [f, a, n, n]), (op, [f, a, n, n + tiny])]
@@ -683,8 +715,9 @@ class C13(Base):
         out.append(Case("o.deg.modular", [F(350), F(10)], family="oracle-regression"))
         return out
 
-    def native_args(self, tier, seed):
-        return ["native", "c13", "200000" if tier == "quick" else "5000000", str(seed)] + (["full"] if tier == "thorough" else [])
+    def native_runs(self, tier, seed):
+        return [["native", "c13", "200000" if tier == "quick" else "5000000", str(seed)] + (["full"] if tier == "thorough" else []),
+                ["native", "c17", "0", str(seed), "Rad", "Deg"]]
 
 
 def float_args(name):
@@ -916,6 +949,11 @@ class C09(Base):
         for _ in range(k):
             eye, d, up = exact_frame(rng)
             out.append(Case("o.look.rigid", eye + d + up, family="oracle"))
+            # the result does not depend on the lengths of dir and up: very short and very long ones too
+            # (powers of 4 keep every normalisation a perfect square)
+            k1, k2 = F(1, 4 ** 40), F(4 ** 30)
+            out.append(Case("o.look.rigid", eye + d + [k1 * x for x in up], family="oracle-short-up"))
+            out.append(Case("o.look.rigid", eye + [k1 * x for x in d] + [k2 * x for x in up], family="oracle-short-dir-long-up"))
             d2 = pyth_vectors(rng, 2)
             out.append(Case("o.look.2d", d2 + rng.distinct(2), family="oracle"))
         return out
@@ -952,11 +990,12 @@ def quat_pair_with_dot(rng, target, side):
 class C14(Base):
     title = "lerp, nlerp and slerp interpolate with exact endpoints along the shortest path"
     design_ref = "§6 C14"
+    sparsify = ["o.lerp"]
     ops = ["v1.lerp", "v2.lerp", "v3.lerp", "v4.lerp", "q.lerp", "q.nlerp", "q.slerp", "q.dot", "q.normalize", "q.neg"]
     oracle_ops = ["o.lerp", "o.nlerp.exact"]
     native_args = float_args("c14")
-    level_note = Base.level_note + FLOAT_NOTE + (" The 1e-5 rad envelope of the near (nlerp) branch of slerp is stated "
-                                                 "(slerp_near_bound_full) but not proved; it is evaluated by the f64 oracle only.")
+    level_note = Base.level_note + FLOAT_NOTE + (" The 1e-5 rad envelope of the near (nlerp) branch of slerp is proved over the reals "
+                                                 "(slerp_near_bound) and also measured by the f64 oracle.")
 
     def families(self, rng, tier):
         out = []
@@ -1070,6 +1109,7 @@ class C16(Base):
     design_ref = "§6 C16"
     ops = []
     inventory = "layout"
+    miri = True   # thorough tier: the same native run under Miri (Tree Borrows)
     technique = ("Lean 4 theorems about a model of build.rs's swizzle generator (every word of length 1..upto exactly once, each "
                  "body reads exactly the named fields) and of the positional views + exhaustive native correspondence: one "
                  "generated call site per accessor (550), every conversion / view / index / range / pointer / mint form at every "
